@@ -109,8 +109,8 @@ def _wait_cls(p, ops):
 
 
 def gen_cases(rng, tier):
-    n_wait = {"quick": 1000, "thorough": 16000, "search": 1200}[tier]
-    n_procs = {"quick": 200, "thorough": 2500, "search": 250}[tier]
+    n_wait = {"quick": 1000, "thorough": 8000, "search": 1200}[tier]
+    n_procs = {"quick": 200, "thorough": 1500, "search": 250}[tier]
     perm_max = {"quick": 3, "thorough": 4, "search": 3}[tier]
     cases = []
     # exhaustive status decoding
